@@ -21,7 +21,7 @@ func init() {
 		Level: "model_checking",
 		Rule: "applications with language switches before the first HALT, while handling input at the entry node, in a child node and immediately before the end x switch answers {nor,no,eng,swa,fre (639-2/B),xx,norsk with LANG; nor without LANG} chosen per call x Config.Language {'',nor} x translations present for every subset of {entry template, child template, menu label + static symbol} x all input histories up to depth d x {long-lived, persisted-mem, persisted-fs}; " +
 			"reference VM in lockstep (current language = config, then last valid code; rendered text = translation where present, default otherwise; external functions receive the language) plus: every template/menu/function lookup of a request carries the language current before or after that request, and render-time lookups carry the one after it; states = distinct (app, position, language); non-trivial = executions with >=2 effective switches or an invalid code after a valid one",
-		Assumptions: []string{"an empty language code with LANG set is outside the alphabet (the code treats it as reset; the statement does not cover it)", "two resources: the harness's recording in-memory resource (per-lookup language check) and the library's resource.DbResource over db/mem (rendered text only); resource/gettext.go (PoResource) is not exercised"},
+		Assumptions: []string{"an empty language code with LANG set is outside the alphabet (the code treats it as reset; the statement does not cover it)", "three resources: the harness's recording in-memory resource (per-lookup language check) and the library's resource.DbResource over db/mem (rendered text only); and resource.PoResource over gettext catalogues written to a scratch directory (rendered text only)"},
 		Run:         c18Run,
 		Replay:      c18Replay,
 		MinItems:    50,
@@ -182,7 +182,7 @@ func c18Run(c *mc.Ctx) {
 	c.Note("history_depth", fmt.Sprint(depth))
 	c.Note("non_default_switch_answers_per_execution", fmt.Sprint(dev))
 	// the last two serve the application through the library's resource.DbResource over db/mem
-	backends := []lsOpts{{Mode: "long-lived"}, {Mode: "persisted", Backend: "mem"}, {Mode: "long-lived", DbRes: true}}
+	backends := []lsOpts{{Mode: "long-lived"}, {Mode: "persisted", Backend: "mem"}, {Mode: "long-lived", DbRes: true}, {Mode: "long-lived", PoRes: true}}
 	if c.Thorough() {
 		backends = append(backends, lsOpts{Mode: "persisted", Backend: "fs"}, lsOpts{Mode: "persisted", Backend: "mem", DbRes: true})
 	}
